@@ -293,6 +293,17 @@ func judge(out *pipe.Outcome, ix *pipe.Index) pipe.Verdict {
 				continue
 			}
 			if prev != nil && (prev.tear < 0 || prev.tear > s.open) {
+				if detachedTeardown(evs, comp, prev.id, prev.open, s.open) {
+					// the previous run was force stopped (or failed) before this one was
+					// opened: the engine calls the plugin's Teardown with a cancelled context,
+					// the built-in adapter detaches from the call and the plugin logs its
+					// Teardown whenever it gets there. Nothing was read, written or
+					// acknowledged on the old session after the new one was opened: the runs
+					// did not overlap.
+					v.Stats["late_detached_teardowns_observed"]++
+					prev = s
+					continue
+				}
 				add("overlapping-runs", fmt.Sprintf("connector %s was opened again at event %d while its previous plugin session (opened at %d, in use) was still live: two runs of the pipeline overlap", comp, s.open, prev.open), prev.open, s.open)
 			}
 			prev = s
@@ -644,6 +655,33 @@ func init() {
 		Anchors:   []string{"pkg/lifecycle/service.go", "pkg/lifecycle-poc/service.go", "pkg/pipeline/service.go", "pkg/pipeline/instance.go", "pkg/connector/instance.go", "pkg/processor/service.go", "pkg/lifecycle/stream/base.go", "pkg/lifecycle/stream/parallel.go"},
 		Gen:       gen, Judge: judge, Hooks: hooks,
 	})
+}
+
+// detachedTeardown: between open and reopen of a connector the run was force
+// stopped or failed, and the old plugin session (id = comp#sess) shows no record
+// activity after the reopen.
+func detachedTeardown(evs []rig.Ev, comp, id string, open, reopen int) bool {
+	cancelled := false
+	for i := open; i < reopen && i < len(evs); i++ {
+		if (evs[i].Kind == rig.KCtl && evs[i].Op == "ForceStop") || evs[i].Kind == rig.KFailure {
+			cancelled = true
+			break
+		}
+	}
+	if !cancelled {
+		return false
+	}
+	for i := reopen; i < len(evs); i++ {
+		e := &evs[i]
+		if e.Comp != comp || fmt.Sprintf("%s#%d", e.Comp, e.Sess) != id {
+			continue
+		}
+		switch e.Kind {
+		case rig.KSrcEmit, rig.KSrcAck, rig.KDstWrite, rig.KDstAck:
+			return false
+		}
+	}
+	return true
 }
 
 func short(s string) string {
